@@ -103,6 +103,16 @@ theorem started_step_keeps_dir (pre post : List Row) (r : Row) (hr : rowSkip r =
     hasSteps (pre ++ r :: post) = true :=
   (hasSteps_iff _).mpr ⟨r, by simp, hr⟩
 
+/-- **A step that was terminated (robsd-kill, SIGTERM: recorded with a non-zero
+    exit) or left in flight (exit -1) is where the invocation resumes**, and the
+    exit handler keeps the directory for it: whatever skip records follow. -/
+theorem terminated_step_resumed (pre post : List Row) (r : Row) (hr : rowSkip r = false) (he : rowExit r ≠ 0)
+    (hpost : ∀ x ∈ post, rowSkip x = true) :
+    hasSteps (pre ++ r :: post) = true ∧ stepNext (pre ++ r :: post) = some (rowKey r) := by
+  refine ⟨started_step_keeps_dir pre post r hr, ?_⟩
+  rw [stepNext_last pre post r hr hpost]
+  simp [he]
+
 /-- only skip records: the directory goes and resuming fails -/
 theorem only_skips_removed (rows : List Row) (h : ∀ r ∈ rows, rowSkip r = true) :
     hasSteps rows = false ∧ stepNext rows = none := by
